@@ -38,6 +38,36 @@ def run(ctx):
     common.import_dds()
     from dds.structures import ProcessingStage
     nworlds = 80 if thorough else 16
+    # the evaluated function is itself a data function (its own result has a signature and a path): a run that stops before the
+    # path commit stores its blobs and commits nothing; the full run that follows finds every blob there and must still commit
+    # every path of the pipeline (afterwards every path loads, with the value plain execution keeps there)
+    for wi in range(12 if thorough else 4):
+        w = progs.gen_world(rng, nfun=rng.randint(2, 5), allow=("call", "keep", "datafn"))
+        w["funs"][0]["store_path"] = "/root/df0"
+        store_kind = ["local", "memory", "local_lru"][wi % 3]
+        with pipeline.Session(store_kind, tag="c15r") as s:
+            s.set_world(w)
+            entry = {"kind": "eval", "fun": "f0"}
+            k = [4, 3][wi % 2]
+            r0, rr0 = s.run(entry, {"stages": ORDER[:k]})
+            r, rr = s.run(entry)
+            res.evaluations += 2
+            res.count("restricted_then_full_on_a_data_function")
+            res.nontrivial("root data function %d %d" % (wi, k))
+            if rr["error"] is not None:
+                continue
+            bad = None
+            if r["error"] is not None or pipeline.norm_ext(r["value"]) != pipeline.norm_ext(rr["value"]):
+                bad = "full evaluation returned %r (error %s), plain execution %r" % (r["value"], r["error"], rr["value"])
+            else:
+                for pth in sorted(r["paths"] or {}):
+                    got = s.real.load_path(pth)
+                    if got["error"] is not None:
+                        bad = "path %s of the pipeline does not load after the full run: %s" % (pth, got["error"])
+                        break
+            if bad:
+                res.violations.append({"what": "run restricted to %s, then the full run of a pipeline whose evaluated function is a data function: %s" % (ORDER[:k], bad),
+                                       "input": {"stages": ORDER[:k], "store": store_kind, "source": progs.render_world(s.world, "extmod")}, "kf": None})
     for wi in range(nworlds):
         # (every second pipeline reads back, with dds.load, paths it has just kept)
         w = progs.gen_world(rng, nfun=rng.randint(2, 6), allow=("call", "ref", "keep", "datafn", "shadow") + (("load",) if wi % 2 else ()))
